@@ -141,6 +141,7 @@ def _explore(args):
     n = 0
     q0, t0, b0 = E.nqueries, E.qtime, E.nbranches
     E.bounds_seen = set()
+    E.xq = []
     while stack and n < budget:
         p = stack.pop()
         try:
@@ -164,13 +165,57 @@ def _explore(args):
                     'steps': r.steps, 'checks': r.checks, 'covers': r.covers, 'kf': r.kf,
                     'violations': E.violations})
     stats = {'queries': E.nqueries - q0, 'qtime': E.qtime - t0, 'branches': E.nbranches - b0,
-             'fns': sorted(E.functions_encoded), 'models': sorted(E.models_used), 'bounds': sorted(E.bounds_seen)}
+             'fns': sorted(E.functions_encoded), 'models': sorted(E.models_used), 'bounds': sorted(E.bounds_seen), 'xq': E.xq}
     return hname, out, stack, stats
+
+
+XCAP = 150
+
+
+def crosscheck(queries, outdir, tag):
+    """re-decide sampled z3 queries with cvc5; returns (n, agree, undecided, [files of disagreements])"""
+    import concurrent.futures
+    import tempfile
+    d = tempfile.mkdtemp(prefix='xq-', dir='/var/tmp')
+
+    def one(iq):
+        i, (verdict, text) = iq
+        f = os.path.join(d, f'{i}.smt2')
+        with open(f, 'w') as fh:
+            fh.write('(set-logic ALL)\n' + text)
+        try:
+            r = subprocess.run(['cvc5', '--lang', 'smt2', '--tlimit', '30000', f], capture_output=True, text=True,
+                               timeout=60)
+            lines = r.stdout.split()
+            out = lines[0] if lines else 'error'
+            if '(error' in r.stdout or out not in ('sat', 'unsat'):
+                out = 'undecided'
+        except Exception:
+            out = 'undecided'
+        return i, verdict, out
+
+    agree = und = 0
+    bad = []
+    with concurrent.futures.ThreadPoolExecutor(max_workers=int(os.environ.get('VERIF_JOBS', '16'))) as ex:
+        for i, verdict, out in ex.map(one, enumerate(queries)):
+            if out == 'undecided':
+                und += 1
+            elif out == verdict:
+                agree += 1
+            else:
+                dst = os.path.join(outdir, f'{tag}-solver-disagreement-{i}.smt2')
+                os.makedirs(outdir, exist_ok=True)
+                shutil.copy(os.path.join(d, f'{i}.smt2'), dst)
+                bad.append(dst)
+    shutil.rmtree(d, ignore_errors=True)
+    return len(queries), agree, und, bad
 
 
 class HarnessResult:
     def __init__(self, name):
         self.name = name
+        self.xq = []
+        self.xseen = 0
         self.paths = 0
         self.ok = 0
         self.panics = []
@@ -215,6 +260,15 @@ def explore_harnesses(pool, names, max_paths, seed, time_budget=None):
             hr.fns.update(stats['fns'])
             hr.models.update(stats['models'])
             hr.bounds.update(stats['bounds'])
+            hr.xseen += len(stats['xq'])
+            for q in stats['xq']:
+                # reservoir of sampled solver queries for the cvc5 cross-check
+                if len(hr.xq) < XCAP:
+                    hr.xq.append(q)
+                else:
+                    j = rnd.randrange(hr.xseen)
+                    if j < XCAP:
+                        hr.xq[j] = q
             for r in out:
                 hr.paths += 1
                 hr.steps += r['steps']
@@ -464,7 +518,17 @@ def run_one(pid, cfg, tier, seed, base, repo, mir, binary, listed, t_setup, kani
         if kani_res['status'] != 'ok':
             log(f'INCONCLUSIVE {pid}: second engine (Kani) did not verify the comparator laws: '
                 f'{kani_res.get("failed_harnesses")} {kani_res["status"]} {kani_res.get("log_tail", "")[-600:]}')
-    if rc == 0 and (gaps or divergences or trunc or missing_cover or (kani_res and kani_res['status'] != 'ok')):
+    # ---- second solver: cvc5 re-decides a sample of the z3 queries ---------------------------------
+    xqs = [q for hr in res.values() for q in hr.xq]
+    xc = {'solver': 'cvc5', 'sampled': 0, 'agree': 0, 'undecided': 0, 'disagree': 0}
+    if xqs and not os.environ.get('VERIF_NO_XCHECK'):
+        n, agree, und, bad = crosscheck(xqs, rdir, pid)
+        xc.update(sampled=n, agree=agree, undecided=und, disagree=len(bad), files=bad,
+                  queries_seen_by_sampler=sum(hr.xseen for hr in res.values()))
+        for b in bad[:5]:
+            log(f'INCONCLUSIVE {pid}: SOLVER-DISAGREEMENT z3 and cvc5 decide {b} differently')
+    if rc == 0 and (gaps or divergences or trunc or missing_cover or xc['disagree']
+                    or (kani_res and kani_res['status'] != 'ok')):
         rc = 2
     for h, g in gaps[:10]:
         log(f'INCONCLUSIVE {pid} {h}: model gap: {g[:600]}')
@@ -511,6 +575,7 @@ def run_one(pid, cfg, tier, seed, base, repo, mir, binary, listed, t_setup, kani
                              'missing_covers': missing_cover},
             'explore_time_s': round(t_explore, 1),
             'kani': kani_res or 'not run for this property',
+            'second_solver_crosscheck': xc,
         },
         'assumptions': cfg.get('assumptions', []) + [
             'rustc nightly MIR printer + mirsym parser/interpreter; std models in /verif/mirsym/models*.py '
